@@ -278,18 +278,51 @@ def formula_text(tree):
 
 
 def snapshot_formula(f):
-    """Structure of a formula object taken by walking, not by str()."""
-    cls = type(f).__module__ + '.' + type(f).__name__
-    # the tree only (classes, atom names, constants, child order): derived
-    # attributes such as `height` are the library's own business
-    if hasattr(f, '_value') and not hasattr(f, '_subformula'):
-        return [cls, 'bool', f._value]
-    if hasattr(f, 'name') and not hasattr(f, '_subformula'):
-        return [cls, 'ap', f.name]
-    subs = getattr(f, '_subformula', None)
-    if subs is None:
-        return [cls, 'opaque', repr(f)]
-    return [cls, 'op', [snapshot_formula(s) for s in subs]]
+    """Structure of a formula object taken by walking, not by str(): a flat
+    pre-order list (iterative, so that very deep formulas can be
+    snapshotted and compared without recursion).  The tree only (classes,
+    atom names, constants, child counts): derived attributes such as
+    `height` are the library's own business."""
+    out = []
+    stack = [f]
+    while stack:
+        g = stack.pop()
+        cls = type(g).__module__ + '.' + type(g).__name__
+        if hasattr(g, '_value') and not hasattr(g, '_subformula'):
+            out.append([cls, 'bool', g._value])
+        elif hasattr(g, 'name') and not hasattr(g, '_subformula'):
+            out.append([cls, 'ap', g.name])
+        else:
+            subs = getattr(g, '_subformula', None)
+            if subs is None:
+                out.append([cls, 'opaque', type(g).__name__])
+            else:
+                out.append([cls, 'op', len(subs)])
+                stack.extend(reversed(list(subs)))
+    return out
+
+
+def build_deep_formula(spec):
+    """A formula far deeper than the recursion limit, built iteratively:
+    {'logic':..., 'kind': 'X'|'Not', 'n': depth}.  An input on which the
+    checkers raise RecursionError part-way through a call."""
+    L = lang_module(spec['logic'])
+    n = spec['n']
+    if spec['kind'] == 'X':
+        # (E G p) and A X^n q : the first conjunct is handled (and, in CTL*,
+        # labelled) before the deep one is met
+        x = L.AtomicProposition('q')
+        for _ in range(n):
+            x = L.X(x)
+        return L.And(L.E(L.G(L.AtomicProposition('p'))), L.A(x))
+    x = L.AtomicProposition('p')
+    for _ in range(n):
+        x = L.Not(x)
+    if spec['logic'] == 'LTL':
+        return L.A(x)
+    return L.And(L.E(L.G(L.AtomicProposition('p'))), x) \
+        if spec['logic'] == 'CTLS' else L.And(L.EG(L.AtomicProposition('p')),
+                                              x)
 
 
 def formula_atoms(tree, acc=None):
